@@ -18,7 +18,7 @@ def run(tier):
         # the two smallest programs once more with two deviations (e.g. two guards cancelling in the same round)
         d2 = en.curated(names=["flat3"]) + [en.Prog("tinyortho", "O(C(l,l),l)"), en.Prog("tinyortho2", "C(O(l,l),l)")]
         for p in d2:
-            p.args = ["--dev", "2", "--classes", str(en.cls("REQ", "GUARD"))]
+            p.args = ["--dev", "2", "--classes", str(en.cls("REQ", "GUARD")), "--initial-cancel", "1"]
             p.label += "/dev2"
         progs += d2
     res = en.run_all(chk, "C16", progs, args, timeout=(2400 if thorough else 400))
